@@ -657,6 +657,9 @@ inductive Layer
   deriving DecidableEq, Repr
 
 abbrev Layers := List Layer
+/-- a `TlsRecord` as the TCP builder reads it (the capture times of `metadata`), a packet of `metadata` (its `timestamp`) -/
+abbrev TRec := List Nat
+abbrev TPkt := Nat
 
 def mkEther (src dst : Bytes) : List Layer := [Layer.ether src dst]
 def mkIP (v6 : Bool) (src dst : Sum (List Nat) Bytes) : List Layer := [Layer.ip v6 src dst]
@@ -678,6 +681,52 @@ SPECS.append(dict(name="quic_build", group="Builders", theorem="Bld.quic_build_e
                   consts={"frame.src_packet.ts": (f"({UF}.ts frame)", "Nat"), "frame.src_packet.isserver": (f"({UF}.isServer frame)", "Bool")},
                   attr_funcs={(UF, "frame_type"): (f"{UF}.ftype", "Nat"), (UF, "crypto"): (f"{UF}.data", "Bytes"),
                               (UF, "payload"): (f"{UF}.data", "Bytes"), (UF, "stream_data"): (f"{UF}.data", "Bytes")}))
+
+# OutputBuilder: `build` and the three methods it calls, over one state record (`Tcp.St`). `floor(record_len / packet_count)` is
+# the external `fdivfloor` (a float division: exact for operands below 2^26, which TLS record lengths and carrier counts are;
+# the theorems give `fdivfloor a b = a // b`, ZeroDivisionError for b = 0). A record of `decrypted_records` is
+# (plaintext or None, the capture times of its carrier packets, direction).
+TCP_FIELDS = [("self.out", "out", "List (Layers × Nat)"), ("self.server_seq", "server_seq", "Nat"), ("self.client_seq", "client_seq", "Nat"),
+              ("self.ts_zero", "ts_zero", "Option Nat"), ("self.conn_reset", "conn_reset", "Bool"),
+              ("self.no_application_records", "no_application_records", "Bool")]
+TCP_ADDR = [("self.server_mac_addr", "server_mac", "Bytes", "r"), ("self.client_mac_addr", "client_mac", "Bytes", "r"),
+            ("self.server_ip", "server_ip", "Str", "r"), ("self.client_ip", "client_ip", "Str", "r"),
+            ("self.server_port", "server_port", "Nat", "r"), ("self.client_port", "client_port", "Nat", "r"), ("self.ipv6", "ipv6", "Bool", "r")]
+TCP_PLACES = [(k, f, t, "s") for k, f, t in TCP_FIELDS] + TCP_ADDR
+TCP_RPLACES = [p[0] for p in TCP_ADDR]
+FDIV = ("fdivfloor", "Int → Int → Except PyRt.Err Int")
+
+
+def tcp_state_decl():
+    return ("/-- the attributes of an `OutputBuilder` its methods write -/\nstructure Tcp.St where\n"
+            + "".join(f"  {f} : {py2lean.ty(t)}\n" for _, f, t in TCP_FIELDS) + "  deriving DecidableEq, Repr\n")
+
+
+SPECS.append(dict(name="Tcp.St", group="Builders", kind="raw", file="tlexport/output_builder.py", func=None, gen=tcp_state_decl,
+                  theorem="Bld.tcp_build_eq_model"))
+
+
+def tcp_spec(func, params, ext, calls=(), **more):
+    sc = {}
+    for c, cparams in calls:
+        sc["self." + c] = dict(kind="shared", lean="Tcp." + c, exts=[e for e in (["fdivfloor"] if c != "build_ack_handshake" else [])],
+                               args=[t for _, t in cparams], rplaces=TCP_RPLACES, ret="None")
+    spec = dict(name="Tcp." + func, group="Builders", file="tlexport/output_builder.py", func="OutputBuilder." + func, params=params,
+                ret="None", state=dict(type="Tcp.St", param="st"), always_res=True, places=TCP_PLACES, maybe_attrs=["self.ts_zero"],
+                types={**LAYERS, "TRec": "(List Nat)", "TPkt": "Nat"}, calls=SCAPY_CALLS, externals=ext, state_calls=sc, split_loops=True,
+                theorem=f"Bld.tcp_{func}_eq_model")
+    spec.update(more)
+    SPECS.append(spec)
+
+
+PK = [("decrypted", "Bytes"), ("ts", "List Nat")]
+tcp_spec("build_ack_handshake", [], [])
+tcp_spec("build_server_packet", PK, [FDIV], locals={"parts": "List Bytes"})
+tcp_spec("build_client_packet", PK, [FDIV], locals={"parts": "List Bytes"})
+tcp_spec("build", [], [FDIV], calls=[("build_ack_handshake", []), ("build_server_packet", PK), ("build_client_packet", PK)],
+         ret="List (Layers × Nat)", locals={"ts": "List Nat"},
+         places=TCP_PLACES + [("self.decrypted_records", "decrypted_records", "List ((Option Bytes) × TRec × Bool)", "r")],
+         attr_funcs={("TRec", "metadata"): ("id", "List TPkt"), ("TPkt", "timestamp"): ("id", "Nat")})
 
 THEOREMS = _uniq(theorem_of(s) for s in SPECS)
 
@@ -1089,6 +1138,119 @@ def _ks_cases(rng, call):
         out.append(("dev_quic_keys", f"{KS_EXT['hkdfExpandX']} {kl5} {ssl} {mt} {qv}", res(k, v, lambda d: table(d, True))))
     finally:
         kd.hmac, kd.hashes, kd.HKDFExpand, qk.HKDFExpand, qk.HKDF, qk.QuicDecryptor = saved
+    return out
+
+
+# ---- output builders (group Builders): scapy's layer classes replaced by recorders of their keyword arguments
+class _Lay:
+    def __init__(self, name, kw):
+        self.layers = [(name, kw)]
+
+    def __truediv__(self, other):
+        r = _Lay(None, None)
+        r.layers = self.layers + other.layers
+        return r
+
+
+def _layer(name):
+    def mk(*a, **kw):
+        if a:
+            kw = dict(kw, load=a[0])
+        return _Lay(name, kw)
+    return mk
+
+
+def _lstr(x):
+    return "[" + ", ".join(str(ord(ch)) for ch in x) + "]"
+
+
+def _addr(x):
+    return f"(Sum.inl {_lstr(x)})" if isinstance(x, str) else f"(Sum.inr {_b(x)})"
+
+
+def _layers(p):
+    out = []
+    for name, kw in p.layers:
+        if name == "Ether":
+            out.append(f"Gen.Py.Layer.ether {_b(kw['src'])} {_b(kw['dst'])}")
+        elif name in ("IP", "IPv6"):
+            out.append(f"Gen.Py.Layer.ip {_bool(name == 'IPv6')} {_addr(kw['src'])} {_addr(kw['dst'])}")
+        elif name == "UDP":
+            out.append(f"Gen.Py.Layer.udp {kw['dport']} {kw['sport']}")
+        elif name == "TCP":
+            out.append(f"Gen.Py.Layer.tcp {kw['dport']} {kw['sport']} {_lstr(kw['flags'])} {kw['seq']} {kw['ack']}")
+        else:
+            out.append(f"Gen.Py.Layer.raw {_b(kw['load'])}")
+    return "[" + ", ".join(out) + "]"
+
+
+FDIV_LEAN = "(fun a b => if b = 0 then Except.error PyRt.Err.zeroDiv else Except.ok ((a.toNat / b.toNat : Nat) : Int))"
+
+
+def _bld_cases(rng, call):
+    import importlib
+    from types import SimpleNamespace as NS
+    ob = importlib.import_module("tlexport.output_builder")
+    qob = importlib.import_module("tlexport.quic.quic_output_builder")
+    names = ["Ether", "IP", "IPv6", "TCP", "Raw"]
+    qnames = ["Ether", "IP", "IPv6", "UDP", "Raw"]
+    saved = [getattr(ob, n) for n in names], [getattr(qob, n) for n in qnames]
+    for n in names:
+        setattr(ob, n, _layer(n))
+    for n in qnames:
+        setattr(qob, n, _layer(n))
+    out = []
+
+    def rb(lo, hi):
+        return bytes(rng.randrange(256) for _ in range(rng.randint(lo, hi)))
+    try:
+        v6 = rng.random() < 0.4
+        addr = dict(server_mac=b"\x02\x01", client_mac=b"\x02\x02", server_ip="10.0.0.1", client_ip="fe80::2", server_port=8443, client_port=5000)
+        largs = f"{_b(addr['server_mac'])} {_b(addr['client_mac'])} {_lstr(addr['server_ip'])} {_lstr(addr['client_ip'])} 8443 5000 {_bool(v6)}"
+        # QUIC
+        md = rng.random() < 0.5
+        frames = []
+        tcur, scur = rng.randrange(3), rng.random() < 0.5
+        for _ in range(rng.randint(0, 6)):
+            if rng.random() < 0.4:
+                tcur, scur = rng.randrange(3), rng.random() < 0.5
+            ft = rng.choice([0x06, 0xfe, 0x08, 0x0a, 0x0f, 0x01, 0x1c])
+            dat = rb(0, 3)
+            frames.append(NS(frame_type=ft, crypto=dat, payload=dat, stream_data=dat, src_packet=NS(ts=tcur, isserver=scur)))
+        b_ = object.__new__(qob.QUICOutputbuilder)
+        b_.decrypted_traffic, b_.out, b_.ipv6 = frames, [], v6
+        b_.server_mac_address, b_.client_mac_address = addr["server_mac"], addr["client_mac"]
+        b_.server_ip, b_.client_ip, b_.server_port, b_.client_port = addr["server_ip"], addr["client_ip"], 8443, 5000
+        k, v = call(b_.build, md)
+        fl = "[" + ", ".join(f"(⟨{f.frame_type}, {f.src_packet.ts}, {_bool(f.src_packet.isserver)}, {_b(f.crypto)}⟩ : TLX.Quic.UdpOut.Frame)" for f in frames) + "]"
+        ol = "[" + ", ".join(f"({_layers(p)}, some {t})" for p, t in b_.out) + "]"
+        out.append(("quic_build", f"{_bool(md)} {fl} [] {largs}", f".ok {ol} {{ out := {ol} }}" if k == "ok" else f".raised .{v} {{ out := {ol} }}"))
+        # TCP
+        recs = []
+        for _ in range(rng.randint(0, 3)):
+            nts = rng.choice([1, 1, 2, 3, 0]) if rng.random() < 0.9 else 0
+            recs.append((rb(0, 7) if rng.random() < 0.85 else None, [rng.randrange(50) for _ in range(nts)], rng.random() < 0.5))
+        t_ = object.__new__(ob.OutputBuilder)
+        t_.decrypted_records = [(d, NS(metadata=[NS(timestamp=x) for x in tl]), sv) for d, tl, sv in recs]
+        t_.out, t_.server_seq, t_.client_seq, t_.ipv6 = [], 1, 1, v6
+        t_.server_mac_addr, t_.client_mac_addr = addr["server_mac"], addr["client_mac"]
+        t_.server_ip, t_.client_ip, t_.server_port, t_.client_port = addr["server_ip"], addr["client_ip"], 8443, 5000
+        k, v = call(t_.build)
+        rl = "[" + ", ".join(f"({'none' if d is None else '(some ' + _b(d) + ')'}, [{', '.join(str(x) for x in tl)}], {_bool(sv)})" for d, tl, sv in recs) + "]"
+
+        def st_():
+            ol_ = "[" + ", ".join(f"({_layers(p)}, {t})" for p, t in t_.out) + "]"
+            tz = getattr(t_, "ts_zero", None)
+            return (f"{{ out := {ol_}, server_seq := {t_.server_seq}, client_seq := {t_.client_seq}, ts_zero := {'none' if tz is None else '(some ' + str(tz) + ')'}, "
+                    f"conn_reset := {_bool(getattr(t_, 'conn_reset', False))}, no_application_records := {_bool(t_.no_application_records)} }}")
+        rv = ("[" + ", ".join(f"({_layers(p)}, {t})" for p, t in v) + "]") if k == "ok" else None
+        init = "{ out := [], server_seq := 1, client_seq := 1, ts_zero := none, conn_reset := false, no_application_records := false }"
+        out.append(("Tcp.build", f"{FDIV_LEAN} {largs} {rl} {init}", f".ok {rv} {st_()}" if k == "ok" else f".raised .{v} {st_()}"))
+    finally:
+        for n, o in zip(names, saved[0]):
+            setattr(ob, n, o)
+        for n, o in zip(qnames, saved[1]):
+            setattr(qob, n, o)
     return out
 
 
@@ -1508,6 +1670,8 @@ def _cases(rng, n):
                         f".ok () {{ packet_buffer := {segs(getattr(me, side + '_packet_buffer'))}, tls_records := {recs}, next_seq := (some {nxt}) }}"
                         if k == "ok" else f".raised .{v} {{ packet_buffer := [], tls_records := [], next_seq := none }}"))
         out.extend(_ks_cases(rng, call))
+        for _ in range(2):
+            out.extend(_bld_cases(rng, call))
         # output builders
         pm = rng.choice([{}, {443: 8443}, {443: 8443, 5000: 1}])
         sp, keep = rng.choice([443, 5000, 80]), rng.random() < 0.5
@@ -1540,7 +1704,7 @@ OUTSIDE = [
     ("def f(x):\n    return x[::2]\n", [("x", "Bytes")], "Bytes"),
     ("def f(x):\n    for i in x:\n        pass\n    return 0\n", [("x", "Int")], "Int"),
     ("def f(x):\n    k = 255\n    for t in x:\n        k = t\n    return 0\n", [("x", "List Bytes")], "Int"),
-    ("def f(x):\n    for i in range(3):\n        if i == x:\n            continue\n    return 0\n", [("x", "Int")], "Int"),
+    ("def f(x):\n    with x:\n        return 0\n", [("x", "Int")], "Int"),
     ("def f(x):\n    while x > 0:\n        x -= 1\n    else:\n        x = 5\n    return x\n", [("x", "Int")], "Int"),
     ("def f(x):\n    try:\n        return x[0]\n    except KeyError:\n        return 1\n    finally:\n        pass\n", [("x", "Bytes")], "Int"),
     ("def f(d, k):\n    return d[k] in \"ab\"\n", [("d", "Table Str; Nat"), ("k", "Str")], "Bool"),
